@@ -147,7 +147,8 @@ def node_matches(ck, name):
 def record_schema(ctx, sid, rules, L, rng, want='m', npairs=0):
     """Build + query the real library for one schema. Returns (record|None, outcome, text)."""
     text = K.render(rules)
-    oc, ck, msg = K.build(text)
+    oc, ck, msg, note = K.build2(text)
+    K.recompile_violation(ctx, ctx.prop, note, text)
     if oc != 'ok':
         return None, (oc, msg), text
     alpha = K.alphabet(rules, rng)
@@ -238,7 +239,8 @@ def stage_b(ctx, procs):
         rules = to_json(it[2])
         exp = [expset(v) for v in seq(it[3])]
         text = K.render(rules)
-        oc, ck, msg = K.build(text)
+        oc, ck, msg, note = K.build2(text)
+        K.recompile_violation(ctx, 'C11', note, text)
         ctx.traces += 1
         if oc != 'ok':
             nrej += 1          # e.g. a name pattern that signs itself: C13 judges rejections
@@ -377,6 +379,12 @@ def replay(ctx, path):
             print('  Checker.match:', rec['r1'][first - 1])
         print('reproduced' if v else 'not reproduced (all three agree)')
         return 1 if v else 0
+    if obj.get('kind') == 'recompile':
+        K.build('#other: "o"/p\n')
+        oc, ck, msg, note = K.build2(obj['text'])
+        oc, ck, msg, note2 = K.build2(obj['text'])
+        print(obj['text'], oc, note or note2 or 'both compilations agree')
+        return 1 if (note or note2) else 0
     if obj.get('kind') == 'text':
         oc, ck, msg = K.build(obj['text'])
         print(obj['text'], oc, msg)
